@@ -19,6 +19,9 @@ Robust(r) == /\ r.crash = "none"
              /\ r.panic = ""
              /\ r.peak_core <= MemBound(r.len)
              /\ r.peak <= 4 * MemBound(r.len)          \* typed targets add formatted type-check errors
+             \* a consumer that goes on after a row failed to decode still reaches the end, after at most the announced number of items
+             /\ (r.drain.capped = 1 \/ (r.drain.ended = 1 /\ r.drain.items <= r.drain.announced))
+             /\ r.drain.vec_over = 0        \* a vector cell read by a skipping consumer: never more items than the dimension, len() truthful
 
 RECURSIVE StripT(_)
 StripT(T) ==
